@@ -104,6 +104,14 @@ Theorem unlock_stops_when_check_finds_nothing :
 Proof. split; [reflexivity|]. split; [intros r [-> | ->]; reflexivity|]. intros m. reflexivity. Qed.
 Print Assumptions unlock_stops_when_check_finds_nothing.
 
+(* A removal (Rm of the lock directory / of the heartbeat file) whose leading Lstat fails with anything but "does not
+   exist" fails closed: no further operation, nothing removed (so an Unlock attempt hit by such a fault is retried). *)
+Theorem rm_fails_closed_on_lstat_failure :
+  rm_lstat_failure_fails facts = true /\
+  forall clean p, match rm_with clean p with Do (OLstat q) k => q = p /\ k ROther = Ret Err | _ => False end.
+Proof. split; [reflexivity|]. intros clean p. split; reflexivity. Qed.
+Print Assumptions rm_fails_closed_on_lstat_failure.
+
 (* The code's staleness verdict IS "the time stamp is older than 100 ms" (2 heartbeat periods of 50 ms, strict, in
    milliseconds on both sides), for the empty lock directory and for the heartbeat file alike — the canonical verdict
    the ghost windows, the oracle hypothesis and the harness use. *)
